@@ -22,6 +22,89 @@ ASSUMPTIONS = [
 TRUSTED = ["coq/Model/Ifdef.v", "coq/Model/Include.v", "coq/Spec/CondSpec.v"]
 
 
+def library_oracle(rng):
+    """Libraries found on disk through HERA_PY_DIR (`#include <name>`) are files like any other (D55): conditional
+    compilation applies to them, their own quoted includes are relative to them, diagnostics name them, and a library
+    that includes itself - directly or through a quoted include - is a reported cycle, not a crash."""
+    import os, shutil, tempfile
+    from hera.data import Settings
+    from hera.parser import parse
+    import runcases as rc
+    problems = []
+    root = tempfile.mkdtemp(prefix="hera_lib_")
+    saved = os.environ.get("HERA_PY_DIR")
+    a, b, c = (rng.randrange(1, 200) for _ in range(3))
+    sym = rng.choice(["HERA_PY", "HERA_C", "FOO"])
+    kept = sym == "HERA_PY"
+    lib = os.path.join(root, "lib")
+    files = {
+        "cond.hera": "#ifdef %s\nSET(R1, %d)\n#else\nSET(R1, %d)\n#endif\n#ifndef HERA_PY\nthis is (( not HERA\n#endif\n"
+                     "#include \"sub/inner.hera\"\nSET(R3, %d)\n" % (sym, a, a + 1, c),
+        "sub/inner.hera": "SET(R2, %d)\n" % b,
+        "selfinc.hera": "SET(R4, 1)\n#include <selfinc.hera>\nSET(R5, 2)\n",
+        "loop1.hera": "#include \"loop2.hera\"\n",
+        "loop2.hera": "SET(R6, 3)\n#include <loop1.hera>\n",
+        "bad.hera": "SET(R1, 1)\nSET(R2, 2\n",
+    }
+    try:
+        for k, t in files.items():
+            os.makedirs(os.path.dirname(os.path.join(lib, k)), exist_ok=True)
+            open(os.path.join(lib, k), "w").write(t)
+        os.environ["HERA_PY_DIR"] = lib
+        mp = os.path.join(root, "main.hera")
+        scenarios = [
+            ("cond", "#include <cond.hera>\nSET(R7, 9)\n", ["SET(R1,%d)" % (a if kept else a + 1), "SET(R2,%d)" % b, "SET(R3,%d)" % c, "SET(R7,9)"], []),
+            ("self", "#include <selfinc.hera>\n", ["SET(R4,1)", "SET(R5,2)"], [("recursive", "lib/selfinc.hera")]),
+            ("loop", "#include <loop1.hera>\n", ["SET(R6,3)"], [("recursive", "lib/loop2.hera")]),
+            ("twice", "#include <cond.hera>\n#include <cond.hera>\n", None, []),
+            ("bad", "#include <bad.hera>\n", None, [("other", "lib/bad.hera")]),
+        ]
+        for name, text, want_ops, want_errs in scenarios:
+            open(mp, "w").write(text)
+
+            def go():
+                with fc.captured():
+                    return parse(text, path=mp, settings=Settings())
+            try:
+                ops, msgs = rc.with_budget(go, 5.0)
+            except rc.Budget:
+                problems.append({"what": "library scenario %s: include processing did not terminate" % name, "files": files, "main": text})
+                continue
+            except BaseException as e:  # noqa
+                problems.append({"what": "library scenario %s: include processing raised %s: %s" % (name, type(e).__name__, str(e)[:100]),
+                                 "files": files, "main": text})
+                continue
+            got_ops = [str(o).replace(" ", "") for o in ops]
+            got_errs = [("recursive" if "recursive include" in m else "other",
+                         os.path.relpath(os.path.realpath(loc.path), os.path.realpath(root)) if loc is not None and loc.path else None)
+                        for m, loc in msgs.errors]
+            if want_ops is not None and got_ops != want_ops:
+                problems.append({"what": "library scenario %s: operations %r, expected %r" % (name, got_ops, want_ops), "files": files, "main": text})
+            elif name == "bad" and (not got_errs or any(e != want_errs[0] for e in got_errs)):
+                problems.append({"what": "library scenario bad: diagnostics %r, expected errors located in lib/bad.hera" % (got_errs,),
+                                 "files": files, "main": text})
+            elif name != "bad" and got_errs != want_errs:
+                problems.append({"what": "library scenario %s: diagnostics %r, expected %r" % (name, got_errs, want_errs), "files": files, "main": text})
+    finally:
+        if saved is None:
+            os.environ.pop("HERA_PY_DIR", None)
+        else:
+            os.environ["HERA_PY_DIR"] = saved
+        shutil.rmtree(root, ignore_errors=True)
+    return problems
+
+
+def known_replays(ctx, findings):
+    """D55: the library scenarios are the replay of the finding."""
+    import random
+    out = []
+    for e in findings:
+        if e["id"] == "D55":
+            p = library_oracle(random.Random(0))
+            out.append((e, bool(p), p[0]["what"] if p else None))
+    return out
+
+
 def correspondence(ctx, model_available=True):
     quick = ctx.tier == "quick"
     rng = ctx.rng
@@ -29,6 +112,8 @@ def correspondence(ctx, model_available=True):
     res = fc.compare_ifdefs("C16i", cases, model_available)
     spec_failures = list(res["spec_failures"])
     spec_failures += fc.parse_through_oracle(rng, 120 if quick else 2000)
+    for _ in range(3 if quick else 40):
+        spec_failures += library_oracle(rng)
     disagreements = [{"what": "evaluate_ifdefs vs Model/Ifdef", **d} for d in res["disagreements"]]
     st = {"trees": 0, "files": 0, "includes": 0, "cyclic": 0, "missing": 0, "model_agree": 0}
     terms, wants, trees = [], [], []
@@ -62,7 +147,9 @@ def correspondence(ctx, model_available=True):
                 "tree; the top-level parser on such texts (directives indented / flush left / mixed) vs on the kept lines alone; "
                 "tree; includes: generated file trees in nested directories (forward includes, diamonds, self-includes, "
                 "cycles of any length, ./ and ../ spellings, missing files) through the real parser vs the splice "
-                "semantics, the file named in every include diagnostic, and Model/Include.v on the same trees",
+                "semantics, the file named in every include diagnostic, the lexer warnings of every spliced file, and "
+                "Model/Include.v on the same trees; libraries found through HERA_PY_DIR (conditionals, nested quoted includes, "
+                "self-inclusion, cycles through a quoted include, diagnostics naming the library file)",
         "distribution": {"ifdef_cases": res["cases"], "ifdef_with_expectation": res["with_expectation"],
                          "ifdef_model_agree": res["agree"], "include": st},
         "samples": [{"text": cases[0][0]}],
